@@ -141,7 +141,10 @@ pub fn run_target(target: &str, args: &Args, runs: u64, allow: &[String]) -> Fuz
             .arg("-len_control=0")
             .arg("-max_len=6000")
             .arg("-timeout=60")
-            .arg("-rss_limit_mb=6000")
+            // the RSS limit is off: on Linux the child's ru_maxrss inherits the parent's high-water mark across
+            // vfork+exec, so a large check process makes libFuzzer report a bogus "oom" at its first sample
+            .arg("-rss_limit_mb=0")
+            .arg("-malloc_limit_mb=3000")
             .arg("-print_final_stats=1")
             .arg(format!("-artifact_prefix={}/job{k}-", arts.display()))
             .env("VERIF_FUZZ_ALLOW", allow.join(","))
@@ -173,12 +176,19 @@ pub fn run_target(target: &str, args: &Args, runs: u64, allow: &[String]) -> Fuz
     let mut statuses = Vec::new();
     let mut any_timeout = false;
     let mut bad_exit_without_artifact = None;
+    let mut slow_units = 0u64;
     if let Ok(rd) = std::fs::read_dir(&arts) {
         let mut ps: Vec<PathBuf> = rd.flatten().map(|e| e.path()).collect();
         ps.sort();
         for p in ps {
+            let name = p.file_name().unwrap_or_default().to_string_lossy().to_string();
+            // `slow-unit-*` files are libFuzzer's notes about slow inputs, not failures
+            if name.contains("slow-unit-") {
+                slow_units += 1;
+                continue;
+            }
             if let Ok(b) = std::fs::read(&p) {
-                r.artifacts.push((p.file_name().unwrap_or_default().to_string_lossy().to_string(), b));
+                r.artifacts.push((name, b));
             }
         }
     }
@@ -215,6 +225,7 @@ pub fn run_target(target: &str, args: &Args, runs: u64, allow: &[String]) -> Fuz
         "job_status": statuses,
         "artifacts": r.artifacts.iter().map(|a| a.0.clone()).collect::<Vec<_>>(),
         "tolerated_known_hits": tolerated,
+        "slow_unit_notes": slow_units,
     });
     if any_timeout {
         r.infra = Some("a libFuzzer job hit the harness time limit".into());
